@@ -166,7 +166,7 @@ fn run_reads(rq: &mut Request, plan: &ReadPlan, d: &mut Delivered) {
                     // front (the two free regions of a ring buffer), an empty one in the middle
                     let mut e1: [u8; 0] = [];
                     let mut e2: [u8; 0] = [];
-                    let shape = d.id.unwrap_or(0) % 3;
+                    let shape = (d.id.unwrap_or(0) as usize + d.body_length.unwrap_or(1) + d.headers.len()) % 3;
                     loop {
                         let r = {
                             let mut bufs = match shape {
